@@ -41,6 +41,12 @@ class Finding:
         else:
             self.stmt_key = ""
         self.line = getattr(node, "lineno", None) if isinstance(node, ast.AST) else None
+        if where is None and isinstance(node, ast.AST):
+            n = node
+            while n is not None and not isinstance(n, ast.Module):
+                n = getattr(n, "_parent", None)
+            if n is not None and hasattr(n, "_module"):
+                where = n._module.relpath
         if where is None and isinstance(construct, (FuncInfo, ClassInfo)):
             where = construct.module.relpath
         self.file = where
